@@ -187,7 +187,9 @@ def rq_sent_exact(self, method, url, kwargs, old, result):
             self._auth, auth_args(self, old.kwargs))
     return True
 
-@c.ensures(props=["C06"], note="C06: a normal return means 2xx, and the response returned is the one received")
+@c.ensures(props=["C06"], aux=True,
+           note="auxiliary (never a violation by itself): the bundled transport returns only 2xx. C06's 'never returns a value' is carried by the "
+                "emitted handlers, which are proved to raise for every non-2xx status whatever the transport does; this clause is defence in depth")
 def rq_returns_2xx(self, method, url, kwargs, old, result):
     return (call_count("self._client.request") == 1 and result is call_result("self._client.request", 0)
             and 200 <= result.status_code and result.status_code < 300)
